@@ -8,6 +8,8 @@ import (
 	_ "verif/checks/c02"
 	_ "verif/checks/c03"
 	_ "verif/checks/c15"
+	_ "verif/checks/c17"
+	_ "verif/checks/c20"
 )
 
 func main() { fw.Main() }
